@@ -579,7 +579,7 @@ class EndpointLookupInterface(ThingWithCommonRD, ObservableResource):
                 if search_value is not None and search_value.endswith("*"):
 
                     def matches(x, start=search_value[:-1]):
-                        return x.startswith(start)
+                        return x is not None and x.startswith(start)
                 else:
 
                     def matches(x, search_value=search_value):
@@ -588,7 +588,9 @@ class EndpointLookupInterface(ThingWithCommonRD, ObservableResource):
                 if search_key in ("if", "rt"):
 
                     def matches(x, original_matches=matches):
-                        return any(original_matches(v) for v in x.split())
+                        return x is not None and any(
+                            original_matches(v) for v in x.split()
+                        )
 
                 # The filters are applied right away (lists, not generator
                 # expressions): a lazily evaluated filter would look up
@@ -643,7 +645,7 @@ class ResourceLookupInterface(ThingWithCommonRD, ObservableResource):
                 if search_value is not None and search_value.endswith("*"):
 
                     def matches(x, start=search_value[:-1]):
-                        return x.startswith(start)
+                        return x is not None and x.startswith(start)
                 else:
 
                     def matches(x, search_value=search_value):
@@ -652,7 +654,9 @@ class ResourceLookupInterface(ThingWithCommonRD, ObservableResource):
                 if search_key in ("if", "rt"):
 
                     def matches(x, original_matches=matches):
-                        return any(original_matches(v) for v in x.split())
+                        return x is not None and any(
+                            original_matches(v) for v in x.split()
+                        )
 
                 # (lists rather than generator expressions, see endpoint lookup)
                 if search_key == "href":
